@@ -268,3 +268,25 @@ def multiclient_fixture(cfg, candidate_port_name, itf, fct):
     if not releases:
         raise MultiClientCfgError('release event not found')
     return MultiClientPortCfgFixture(claims[0], NamespaceIds(found[0].fqn.items + [reply]), releases[0])
+
+
+# ------------------------------------------------- C03 C07 C13: the exposed ports of the wrapped component, any number
+from dznpy.adv_shell.common import DznPortItf
+from specs.scoping import tree_fqn
+
+
+def exposed_ports(cfg, fct, encapsulee):
+    """(provides, requires): every provides port and every requires port that is not injected, in model order, each with
+    the interface its type name denotes from the scope the component lives in, the ONE semantics its side's
+    configuration gives it (ghost.port_semantics: specs/port_selection.sem, proved for PortsCfg.match under C03), and -
+    provides ports only - the multi-client fixture of check_multiclient_cfg"""
+    scope = NamespaceIds(tree_fqn(encapsulee.parent_ns))
+    provides, requires = [], []
+    for p in encapsulee.ports.elements:
+        itf = ghost.lookup(fct, p.type_name.value, scope)[0]
+        if p.direction == PortDirection.PROVIDES:
+            provides.append(DznPortItf(p, itf, ghost.port_semantics(cfg.ports_cfg, 'provides', p.name),
+                                       ghost.multiclient_fixture(cfg.ports_cfg.multiclient, p.name, itf, fct)))
+        elif not p.injected.value:
+            requires.append(DznPortItf(p, itf, ghost.port_semantics(cfg.ports_cfg, 'requires', p.name), None))
+    return (provides, requires)
